@@ -98,6 +98,12 @@ CLAIMED = {
         text="TLC proves on MpiPollImpl that a callback runs at most once and only for a request MPI reported complete, and that every request is eventually signalled, for all interleavings of adds, completions, chunked polls and compaction (dropping the chunk base breaks it); real single-rank histories across all completion modes and 1-64 outstanding receives (below, at and above the 32-request polling chunk) must be behaviours of MpiAbs: every receiver signalled exactly once, only after its message was sent, with the full payload visible, and pika::wait() returning only after all requests posted before it were signalled",
         note="one MPI implementation and one rank; MPI error paths are not exercised; sequential consistency",
         design="5/C20"),
+    "C12": dict(
+        category="exploration",
+        technique="TLA+ abstract spec ContextAbs (per-task stack depth, task datum, stack extents; frame condition) model-checked by TLC on a closed model + TLC trace validation of check records emitted by tasks that self-verify canaries, callee-saved registers, FP control state and identity after every yield, suspension and migration",
+        text="exploration driven and judged by a model: TLC checks the frame condition and stack disjointness on the abstract spec, and validates the records of random multi-task scripts (call frames with canaries, task-datum writes, yields, blocking waits, all stack-size classes touched to their configured size, guard pages on/off, recycled thread objects left dirty by late interruptions and data) against it: a task must observe exactly its own state on whichever worker it resumes, live stacks must be disjoint, and a task on a recycled object must start clean",
+        note="the context-switch assembly and stack memory are exercised along generated behaviours, not proved; one open finding (FP control state not saved by the Linux context switch) is exercised by dedicated runs only",
+        design="5/C12"),
 }
 
 NOT_YET = {}
